@@ -11,6 +11,7 @@ import (
 	_ "pdverif/internal/clusterh"
 	_ "pdverif/internal/configh"
 	_ "pdverif/internal/idalloc"
+	_ "pdverif/internal/operatorh"
 	_ "pdverif/internal/placementh"
 	_ "pdverif/internal/regionh"
 	_ "pdverif/internal/replh"
